@@ -307,6 +307,22 @@ fn build_stepwise(x: &mut Xot, d: &ADoc, rng: &mut Rng, cons_off: bool, stats: &
                     }
                 };
                 handle[i] = Some(h);
+                // a node may spend the time until its attachment somewhere else in the store (assembled
+                // under a scratch document or element) and is then moved, not attached fresh
+                if i != 0 && rng.pct(10) {
+                    let c = x.new_comment("scratch");
+                    let holder = if matches!(f.nodes[i].kind, AKind::Elem(_)) && rng.pct(50) {
+                        log.push(format!("park #{} under a scratch document, after a comment", i));
+                        x.new_document()
+                    } else {
+                        log.push(format!("park #{} under a scratch element, after a comment", i));
+                        let nm = x.add_name("scratch");
+                        x.new_element(nm)
+                    };
+                    x.append(holder, c).map_err(|e| format!("park: {:?}", e))?;
+                    x.append(holder, h).map_err(|e| format!("park: {:?}", e))?;
+                    stats.inc("probe/c20_parked_before_attachment");
+                }
             }
             Task::Attach(i) => {
                 let p = f.nodes[i].parent.unwrap();
